@@ -146,57 +146,92 @@ def leader_harness(w, nends, nfeedback, max_iter, outer_rounds):
         holder = [leader]
         ex.call_function(setup, [Ref(holder, 0), Ref([md], 0)])
         out = []
-        sx = lambda: {'nends': nends, 'max_iter': max_iter, 'output': [repr(e) for e in out],
-                      'feedback': [[repr(e) for _, b in s.sent for e in b] for s in net.feedback],
-                      'cond': [a for _, a in cond.calls]}
-        # closed loop: after every feedback broadcast the ends owe the next delta
-        state = init.z()
-        index = 0
-        done = 0
         for step in range(4 * (max_iter + 1) * (outer_rounds + 1) + 6):
             el = ex.call_function(nxt, [Ref(holder, 0)])
             out.append(el)
-            # account for the rounds completed inside this call
-            while done < len(net.rounds):
-                deltas, fbs = net.rounds[done]
-                done += 1
-                if sorted(i for i, _ in deltas) != list(range(nends)):
-                    raise Violation('a round did not fold exactly one delta of every replica', hlib._wit(ex), sx())
-                for _, d in deltas:
-                    state = UF.F(state, d.z())
-                index += 1
-                if len(cond.calls) < done:
-                    raise Violation('loop condition not evaluated after a round', hlib._wit(ex), sx())
-                asked, ans = cond.calls[done - 1]
-                check(ex, asked.z() == state, 'loop condition evaluated on a state that is not the fold of exactly '
-                      'the deltas of this round over the previous state', sx)
-                cont = ans and index < max_iter
-                if sorted(t for t, _ in fbs) != sorted(s_.tag for s_ in net.feedback):
-                    raise Violation('feedback not sent exactly once to every replica after a round', hlib._wit(ex), sx())
-                for _, b in fbs:
-                    kind, st = b[0].fields[0].fields
-                    if kind.variant != ('Continue' if cont else 'Finished'):
-                        raise Violation('leader decided %s but condition=%s index=%d max=%d' %
-                                        (kind.variant, ans, index, max_iter), hlib._wit(ex), sx())
-                    check(ex, st.z() == (state if cont else init.z()),
-                          'state sent to the replicas is not the new state (Continue) / the initial state (Finished)', sx)
-                if cont:
-                    hlib.cover(ex, 'continued')
-                else:
-                    if el.variant != 'Item' or done != len(net.rounds):
-                        raise Violation('leader did not emit the final state when the loop finished', hlib._wit(ex), sx())
-                    check(ex, el.fields[0].z() == state, 'emitted final state is not the state of the last round', sx)
-                    state = init.z()
-                    index = 0
-                    hlib.cover(ex, 'finished')
             if el.variant == 'Terminate':
                 break
         else:
-            raise Violation('leader did not terminate', hlib._wit(ex), sx())
-        kinds = [e.variant for e in out]
-        want = ['Item', 'FlushAndRestart'] * outer_rounds + ['Terminate']
-        if kinds != want:
-            raise Violation('leader output %s, expected %s' % (kinds, want), hlib._wit(ex), sx())
+            raise Violation('leader did not terminate', hlib._wit(ex))
+        if net.cur or net.fb_cur:
+            raise Violation('leader stopped in the middle of a round', hlib._wit(ex))
+        rounds = [([(i, d) for i, d in deltas], [(t, b[0].fields[0].fields[0].variant, b[0].fields[0].fields[1]) for t, b in fbs])
+                  for deltas, fbs in net.rounds]
+        answers = [a for _, a in cond.calls]
+        asked = [st for st, _ in cond.calls]
+        outs = [(e.variant, e.fields[0] if e.variant == 'Item' else None) for e in out]
+        if ex.env.get('native'):
+            # the real leader gets the same deltas in the same order and the same condition answers
+            runner, prof = ex.env['native']
+            args = [nends, nfeedback, max_iter, hlib.concrete_int(ex, init), len(rounds)]
+            for r, (deltas, _) in enumerate(rounds):
+                args.append(int(answers[r]) if r < len(answers) else 0)
+                for i, d in deltas:
+                    args += [i, hlib.concrete_int(ex, d)]
+            ex.env['native_used'] = True
+            txt = runner('leader', args, timeout=120)[prof]
+            ex.env['native_out'] = txt
+            if txt == 'PANIC' or not txt.startswith('OUT'):
+                from mirsym.executor import RustPanic
+                raise RustPanic('the real IterationLeader failed: ' + txt)
+            o_part, f_part = txt[3:].split(';')
+            outs = []
+            for tok in o_part.split():
+                if tok in ('TIMEOUT', 'OVERRUN'):
+                    raise Violation('the real leader does not terminate (%s)' % tok, hlib._wit(ex))
+                e = hlib.parse_token(tok)
+                outs.append((e.variant, e.fields[0] if e.variant == 'Item' else None))
+            nrounds = []
+            groups = f_part.strip()[2:].split('|') if f_part.strip().startswith('FB') else []
+            for r, (deltas, _) in enumerate(rounds):
+                toks = groups[r].split() if r < len(groups) else []
+                fbs = []
+                for j, tok in enumerate(toks):
+                    if tok == '-':
+                        continue
+                    fbs.append((('fb', j), 'Continue' if tok[0] == 'C' else 'Finished', Int('u64', int(tok[2:-1]))))
+                nrounds.append((deltas, fbs))
+            rounds = nrounds
+            asked = None
+        sx = lambda: {'nends': nends, 'max_iter': max_iter, 'outputs': [(k, repr(v)) for k, v in outs],
+                      'rounds': [([(i, repr(d)) for i, d in ds], [(t, k, repr(st)) for t, k, st in fbs]) for ds, fbs in rounds],
+                      'cond': answers}
+        state, index, finished = init.z(), 0, 0
+        items = [v for k, v in outs if k == 'Item']
+        for r, (deltas, fbs) in enumerate(rounds):
+            if sorted(i for i, _ in deltas) != list(range(nends)):
+                raise Violation('a round did not fold exactly one delta of every replica', hlib._wit(ex), sx())
+            for _, d in deltas:
+                state = UF.F(state, d.z()) if not ex.env.get('native') else state * 31 + d.z() + 1
+            index += 1
+            if r >= len(answers):
+                raise Violation('loop condition not evaluated after a round', hlib._wit(ex), sx())
+            if asked is not None:
+                check(ex, asked[r].z() == state, 'loop condition evaluated on a state that is not the fold of exactly '
+                      'the deltas of this round over the previous state', sx)
+            cont = answers[r] and index < max_iter
+            if sorted(t for t, _, _ in fbs) != sorted(s_.tag for s_ in net.feedback):
+                raise Violation('feedback not sent exactly once to every replica after a round', hlib._wit(ex), sx())
+            for _, kind, st in fbs:
+                if kind != ('Continue' if cont else 'Finished'):
+                    raise Violation('leader decided %s but condition=%s index=%d max=%d' %
+                                    (kind, answers[r], index, max_iter), hlib._wit(ex), sx())
+                check(ex, st.z() == (state if cont else init.z()),
+                      'state sent to the replicas is not the new state (Continue) / the initial state (Finished)', sx)
+            if cont:
+                hlib.cover(ex, 'continued')
+            else:
+                if finished >= len(items):
+                    raise Violation('leader did not emit the final state when the loop finished', hlib._wit(ex), sx())
+                check(ex, items[finished].z() == state, 'emitted final state is not the state of the last round', sx)
+                finished += 1
+                state, index = init.z(), 0
+                hlib.cover(ex, 'finished')
+        kinds = [k for k, _ in outs]
+        want = ['Item', 'FlushAndRestart'] * finished + ['Terminate']
+        if kinds != want or finished != outer_rounds:
+            raise Violation('leader output %s, expected %s' % (kinds, ['Item', 'FlushAndRestart'] * outer_rounds + ['Terminate']),
+                            hlib._wit(ex), sx())
         return sx()
     return h
 
